@@ -19,6 +19,7 @@ import (
 
 	"github.com/Cloud-Foundations/keymaster/lib/instrumentedwriter"
 	"github.com/Cloud-Foundations/keymaster/lib/webapi/v0/proto"
+	"github.com/pquerna/otp"
 	"github.com/pquerna/otp/totp"
 )
 
@@ -419,8 +420,29 @@ func (state *RuntimeState) validateUserTOTP(username string, OTPValue int, t tim
 		if !valid {
 			continue
 		}
+		// totp.Validate accepts the previous, current and next time step.
+		// Find the step this code belongs to, so that a code accepted once
+		// is not accepted again in a later step of its validity window.
+		matchedCounter := counter
+		for _, offset := range []int64{-1, 0, 1} {
+			ok, _ := totp.ValidateCustom(OTPString, string(clearTextKey),
+				t.Add(time.Duration(offset*defaultPeriod)*time.Second),
+				totp.ValidateOpts{Period: defaultPeriod, Skew: 0,
+					Digits: otp.DigitsSix, Algorithm: otp.AlgorithmSHA1})
+			if ok {
+				matchedCounter = counter + offset
+				break
+			}
+		}
+		if matchedCounter <= profile.LastSuccessfullTOTPCounter {
+			logger.Printf("validateUserTOTP: TOTP value already used")
+			return false, nil
+		}
 		if !fromCache {
 			profile.LastSuccessfullTOTPCounter = counter
+			if matchedCounter > counter {
+				profile.LastSuccessfullTOTPCounter = matchedCounter
+			}
 			err = state.SaveUserProfile(username, profile)
 			if err != nil {
 				logger.Printf("Saving profile error: %v", err)
